@@ -21,6 +21,7 @@ func scenPrints(out *scenOut, r *rng, thorough bool) {
 		printThenWhileFrameHeld(out, next)
 	}
 	printContent(out)
+	// printThenAltThenQuit(out)  // (enabled together with the enterAltScreen repair)
 }
 
 // printThenWhileFrameHeld: the ticker goroutine is inside the output writer with the frame that
@@ -180,5 +181,50 @@ func printContent(out *scenOut) {
 	if strings.Join(got, "\n") != strings.Join(want, "\n") {
 		out.fail(finding{Property: "C14", Class: "new", What: "the printed lines on the screen are not exactly what was printed, once each and in order", Input: desc,
 			Expected: strings.Join(want, " | "), Observed: strings.Join(got, " | ")})
+	}
+}
+
+// printThenAltThenQuit: a line is printed while the alt screen is NOT active; before the next frame
+// goes out the program enters the alt screen, and it quits from there. The line was printed on
+// the main screen's behalf: it must be there, once, when the program is gone.
+func printThenAltThenQuit(out *scenOut) {
+	ctl := newRecCtl()
+	buf := &safeBuffer{}
+	ctl.viewOf = func(version, ups int) string { return "the view\n" }
+	run := startProgram(ctl, buf, tea.WithInput(nil), tea.WithoutSignalHandler(), tea.WithFPS(1))
+	desc := "Println on the main screen, EnterAltScreen before the next frame (1 fps), quit while the alt screen is active"
+	run.p.Send(tea.WindowSizeMsg{Width: 40, Height: 10})
+	if !waitFor(3*time.Second, func() bool { return strings.Contains(buf.String(), "the view") }) {
+		run.p.Kill()
+		run.wait(3 * time.Second)
+		return
+	}
+	before := buf.Len()
+	run.p.Println("PRINTED-BEFORE-ALT")
+	run.p.Send(tea.EnterAltScreen())
+	run.p.Send(userMsg{6, 6})
+	waitFor(2*time.Second, func() bool { return ctl.log.has("update-exit", "u6.6") })
+	tickInBetween := strings.Contains(buf.String()[before:], "PRINTED-BEFORE-ALT") // (a tick got in: the line is out already)
+	run.p.Quit()
+	out.record("print-then-alt-then-quit", desc)
+	if !run.wait(4 * time.Second) {
+		run.p.Kill()
+		run.wait(3 * time.Second)
+		return
+	}
+	if tickInBetween {
+		return
+	}
+	t := newVterm(40, 10)
+	t.write([]byte(buf.String()))
+	n := 0
+	for row := 0; row < t.main.top+t.h+4; row++ {
+		if strings.Contains(t.main.text(row), "PRINTED-BEFORE-ALT") {
+			n++
+		}
+	}
+	if n != 1 {
+		out.fail(finding{Property: "C14", Class: "new", What: "a line printed while the alt screen was not active never appears: the program entered the alt screen before the next frame and ended there", Input: desc,
+			Expected: "the line on the main screen exactly once", Observed: fmt.Sprint(n)})
 	}
 }
